@@ -8,7 +8,7 @@ d="$(readlink -f "$1")"; prop="$2"
 HERE="$(cd "$(dirname "${BASH_SOURCE[0]}")/.." && pwd)"
 tmp=$(mktemp -d /tmp/hl-seed-XXXXXX); trap 'rm -rf "$tmp"' EXIT
 rsync -a --exclude .git /repo/ "$tmp/a/"; rsync -a --exclude .git /repo/ "$tmp/b/"
-demo_dir=$(head -1 "$d/demo_test.go" | sed -n 's#.*place in: *\([^ ]*\).*#\1#p'); [ -z "$demo_dir" ] && demo_dir=$(jq -r '.demo_dir // empty' "$d/meta.json")
+demo_dir=$(head -1 "$d/demo_test.go" | sed -n 's#.*\(place in\|copy to\): *\([^ ]*\).*#\2#p'); [ -z "$demo_dir" ] && demo_dir=$(jq -r '.demo_dir // .demo_package_dir // empty' "$d/meta.json"); [ -z "$demo_dir" ] && [ -f "$d/meta.agent.json" ] && demo_dir=$(jq -r '.demo_dir // .demo_package_dir // empty' "$d/meta.agent.json")
 res="prop=$prop dir=$(basename $(dirname $d))/$(basename $d)"
 if ! (cd "$tmp/a" && git apply --whitespace=nowarn "$d/patch.diff" 2>/dev/null); then echo "$res APPLY=fail"; exit 3; fi
 (cd "$tmp/a" && go build ./... >/dev/null 2>&1) || { echo "$res APPLY=ok BUILD=fail"; exit 3; }
